@@ -19,9 +19,11 @@ package consensus
 // timeouts fire only when nothing else moves; then TestVerifC01's standard end-of-case checks run
 // (trace to the verified Lean checker, committed blocks compared across the correct nodes).
 //
-// vfDirS6 (stale lock after a double round skip) is a LIVENESS scenario: it is not among the
-// kinds TestVerifC01 draws (vfDirKinds) but is the directed prefix of the C04 liveness search
-// (c04_test.go, via vfDirPlay); VERIF_DIR=S6 runs it here with a heal of 45 rounds.
+// vfDirS6 (stale lock after a double round skip) and vfDirS7 (commit forgotten after a round skip
+// out of the commit step) are LIVENESS scenarios: they are not among the kinds TestVerifC01 draws
+// (vfDirKinds) but are the directed prefixes of the C04 liveness search (c04_test.go, via
+// vfDirPlay); VERIF_DIR=S6 / S7 runs them here (S6 with a heal of 45 rounds). VERIF_DEBUG=2
+// additionally prints every state change during the heal.
 //
 // Replay of one case: the violation text names `seed=<shard seed> case=<c>`; run the harness
 // binary with VERIF_SEED=<shard seed> VERIF_ONLY=<c> VERIF_DEBUG=1 (prints every round, the
@@ -123,6 +125,7 @@ type vfDirSpec struct {
 	maxGap  []int
 	differ  [][2]int
 	powerOK func(d *vfDir) bool // nil: every group below one third
+	roles   string              // the groups used ("" = "ACDZ"); every one of them gets at least one validator
 }
 
 type vfDir struct {
@@ -139,6 +142,7 @@ type vfDir struct {
 	tot       int64
 	junk      types.BlockID // a block id nobody will ever propose (noise votes of Z)
 	dbg       bool
+	dbg2      bool   // VERIF_DEBUG >= 2: every state change during the heal
 	derail    string // first reason why the script left its intended path ("" = on track)
 	preFailed bool   // the synchronous pre-height was not decided (never seen)
 	cutoff    string // roles that are partitioned away: the stages deliver nothing to or from them
@@ -204,11 +208,15 @@ func (d *vfDir) plan(spec vfDirSpec) bool {
 			perm[i], perm[j] = perm[j], perm[i]
 		}
 		role := map[int]byte{}
+		rs := spec.roles
+		if rs == "" {
+			rs = "ACDZ"
+		}
 		for k, i := range perm {
-			if k < 4 {
-				role[i] = "ACDZ"[k]
+			if k < len(rs) {
+				role[i] = rs[k]
 			} else {
-				role[i] = "ACDZ"[r.Intn(4)]
+				role[i] = rs[r.Intn(len(rs))]
 			}
 		}
 		d.role = role
@@ -395,6 +403,9 @@ func (d *vfDir) precommits(rd uint32, vis vfVis) {
 	d.votes("precommit", rd, vis)
 	d.net.deliverIf(func(p vfPending, c vfMsgClass) bool {
 		n := d.net.nodes[p.to]
+		if d.cutoff != "" && d.is(n.idx, d.cutoff) {
+			return false
+		}
 		return c.height == d.h && c.kind == "part" && d.active(n) && n.cs.Step == cstypes.RoundStepCommit
 	})
 }
@@ -653,14 +664,29 @@ func (d *vfDir) fixpoint() {
 		for len(net.pool) > 0 {
 			pm := net.pool[0]
 			net.pool = net.pool[1:]
+			before := ""
+			if d.dbg2 {
+				before = d.sig()
+			}
 			net.nodes[pm.to].cs.handleMsg(pm.mi)
 			moved = true
 			net.drain()
+			if d.dbg2 && before != d.sig() {
+				c := vfClassify(pm.mi.Msg)
+				d.logf("  heal: %s h=%d r=%d from %d to node %d -> %s", c.kind, c.height, c.round, pm.from, net.nodes[pm.to].idx, d.state())
+			}
 		}
 		s := d.sig()
 		for pos := range net.nodes {
+			before := ""
+			if d.dbg2 {
+				before = d.sig()
+			}
 			net.regossip(pos, true)
 			net.drain()
+			if d.dbg2 && before != d.sig() {
+				d.logf("  heal: catch-up gossip for node %d -> %s", net.nodes[pos].idx, d.state())
+			}
 		}
 		if !moved && len(net.pool) == 0 && s == d.sig() {
 			return
@@ -1478,6 +1504,223 @@ func vfDirS6(d *vfDir, variant int) {
 	d.reached("A-holds-polka-r2-but-locked", holds && d.lockedOn("A", keyX))
 }
 
+// vfDirS7 - commit forgotten after a round skip out of the commit step (liveness).
+// Round cr: block B is proposed to C and D but NOT to A (proposal and parts withheld); C, D and Z
+// prevote B, A prevotes nil (variant bit 0: A sees the polka and precommits nil knowing the part
+// set header, or sees no prevote quorum at all). C and D lock and precommit B, Z precommits B: A
+// is shown the precommits of C, D, Z: +2/3 for B - A enters step Commit WITHOUT the block and
+// waits for its parts. C (if the group exists; bit 5: it does not) sees the same and commits: it
+// leaves the height. D must not see the decision yet: Z tells D a nil precommit (equivocation;
+// bit 4, when C+D <= 2/3: Z's precommit is merely withheld from D and D sees those of A, C, D): D
+// sees +2/3 of anything and moves on. Rounds cr+1.. (bit 3: one more): D prevotes B (its lock).
+// Then A - cut off since its commit step - is shown votes of D and Z of the last of these rounds,
+// BEFORE any part of B reaches A (bits 1-2, the trigger):
+//
+//	0 (and 3): the prevotes, D's for B and Z's for a block nobody knows: +2/3 of anything;
+//	1: the precommits, all nil (no polka in that round): a +2/3 majority for NIL;
+//	2: the precommits, all for B (Z prevoted B too, D re-locked): a +2/3 majority for B.
+//
+// The unfixed enterNewRound does not look at the step: A leaves the commit step, drops the part
+// set header it waited for, keeps CommitRound, and (triggers 0, 1) nothing re-evaluates the commit;
+// with trigger 2 the commit is entered again for the later round. Finally (bit 6) D is shown the
+// decision of round cr and leaves the height too - otherwise a later round with a correct
+// proposer may still decide B with A's help. With a guard in enterNewRound
+// only, triggers 1 and 2 still run enterPrecommit for the later round from addVote: a second
+// precommit is signed with the old round number and the commit step is left. The caller's heal /
+// synchronous suffix must make every correct node store B, and no node may sign twice in a round.
+func vfDirS7(d *vfDir, variant int) {
+	cr := d.rounds[0]
+	null := types.BlockID{}
+	seePolka := variant&1 != 0
+	trigger := (variant >> 1) & 3
+	if trigger == 3 {
+		trigger = 0
+	}
+	extra := uint32((variant >> 3) & 1)
+	hasC := len(d.group("C")) > 0
+	withhold := variant&16 != 0 && hasC && 3*d.power("CD") <= 2*d.tot
+	optC := func(ok bool) bool { return !hasC || ok }
+	d.o.Stat(fmt.Sprintf("dir.S7.A-sees-polka=%v", seePolka))
+	d.o.Stat("dir.S7.trigger." + []string{"prevotes-any", "precommit-majority-nil", "precommit-majority-block"}[trigger])
+	d.o.Stat(fmt.Sprintf("dir.S7.extra-rounds=%d", extra))
+	d.o.Stat(fmt.Sprintf("dir.S7.group-C=%v", hasC))
+	d.o.Stat(fmt.Sprintf("dir.S7.z-precommit-withheld-from-D=%v", withhold))
+	d.noiseUntil(1, cr)
+	d.begin(cr)
+	if z := d.prop[cr]; d.role[z] == 'Z' {
+		b := d.mkBlock(z, 0)
+		if b == nil {
+			d.reached("byz-block", false)
+			return
+		}
+		d.byzProposeTo(z, cr, 0, b, "CD")
+	}
+	d.proposal(cr, "CD", "ACD") // A runs into its propose timeout and prevotes nil
+	keyB := d.sent(d.first("D"), vfPv, cr)
+	if !d.reached("cr-prevotes", vfRealKey(keyB) && d.allSent("D", vfPv, cr, keyB) && optC(d.allSent("C", vfPv, cr, keyB)) && d.allSent("A", vfPv, cr, "")) {
+		return
+	}
+	d.byzVote(vfPv, cr, d.idOf(keyB))
+	if seePolka {
+		d.prevotes(cr, vfVisAll)
+	} else {
+		d.prevotes(cr, vfVis{'C': "ACDZ", 'D': "ACDZ"})
+	}
+	if !d.reached("C-D-precommit-B", d.allSent("D", vfPc, cr, keyB) && optC(d.allSent("C", vfPc, cr, keyB))) {
+		return
+	}
+	d.byzVote(vfPc, cr, d.idOf(keyB))
+	if !withhold {
+		d.byzVote(vfPc, cr, null) // the equivocating nil precommit, meant for D
+	}
+	// A: +2/3 precommits for a block it does not have
+	d.showK("precommit", cr, "A", "CDZ", keyB)
+	inCommit := true
+	for _, i := range d.group("A") {
+		n := d.net.nodeOf[i]
+		if n.cs.Height != d.h || n.cs.Step != cstypes.RoundStepCommit || n.cs.CommitRound != cr || n.cs.ProposalBlock != nil {
+			inCommit = false
+		}
+	}
+	if !d.reached("A-in-commit-step-without-block", inCommit) {
+		return
+	}
+	aRound := d.net.nodeOf[d.first("A")].cs.Round
+	// every other precommit of round cr that exists reaches A now, while it is in the commit step
+	// (any precommit of that round ADDED after the skip would enter the commit again)
+	d.show("precommit", cr, "A", "ACD")
+	// C: decides and leaves
+	if hasC {
+		d.showK("precommit", cr, "C", "CDZ", keyB)
+		if !d.reached("C-committed", d.committedAll("C")) {
+			return
+		}
+	}
+	// D: +2/3 of anything, no decision
+	if withhold {
+		d.show("precommit", cr, "D", "ACD")
+	} else {
+		d.showK("precommit", cr, "D", "Z", "")
+		d.show("precommit", cr, "D", "AD")
+	}
+	if !d.reached("D-saw-no-decision", !d.committedAny("D")) {
+		return
+	}
+	d.cutoff = "A"
+	// the later round(s): D and Z only
+	last := cr + 1 + extra
+	for rd := cr + 1; rd <= last; rd++ {
+		d.begin(rd)
+		d.proposal(rd, "D", "D")
+		if !d.reached("D-prevotes-its-lock", d.allSent("D", vfPv, rd, keyB)) {
+			return
+		}
+		if rd == last && trigger == 2 {
+			d.byzVote(vfPv, rd, d.idOf(keyB))
+		} else {
+			d.byzVote(vfPv, rd, d.junk)
+		}
+		if rd == last && trigger == 0 {
+			break
+		}
+		d.prevotes(rd, vfVis{'D': "DZ"})
+		if rd == last && trigger == 2 {
+			if !d.reached("D-precommits-B-again", d.allSent("D", vfPc, rd, keyB)) {
+				return
+			}
+			d.byzVote(vfPc, rd, d.idOf(keyB))
+			break
+		}
+		if !d.reached("D-precommits-nil", d.allSent("D", vfPc, rd, "")) {
+			return
+		}
+		d.byzVote(vfPc, rd, null)
+		if rd == last {
+			break
+		}
+		d.precommits(rd, vfVis{'D': "DZ"})
+	}
+	// A hears of the later round before any part of B
+	d.cutoff = ""
+	if trigger == 0 {
+		d.show("prevote", last, "A", "DZ")
+	} else {
+		d.show("precommit", last, "A", "DZ")
+	}
+	skipped, stayed, again := true, true, true
+	for _, i := range d.group("A") {
+		n := d.net.nodeOf[i]
+		if n.cs.Height != d.h {
+			skipped, stayed, again = false, false, false
+			continue
+		}
+		if n.cs.Step == cstypes.RoundStepCommit || n.cs.Round <= aRound {
+			skipped = false
+		}
+		if n.cs.Step != cstypes.RoundStepCommit || n.cs.CommitRound != cr {
+			stayed = false
+		}
+		if n.cs.Step != cstypes.RoundStepCommit || n.cs.CommitRound != last {
+			again = false
+		}
+	}
+	switch {
+	case skipped:
+		d.o.Stat("dir.S7.reached-A-round-skipped-out-of-commit-step")
+	case stayed:
+		d.o.Stat("dir.S7.reached-A-stayed-in-commit-step")
+	case again:
+		d.o.Stat("dir.S7.reached-A-entered-commit-again-for-the-later-round")
+	default:
+		d.reached("A-skipped-or-stayed", false)
+	}
+	if who := vfSignedTwice(d.net, d.h); who != "" {
+		d.o.Stat("dir.S7.signed-twice-in-a-round")
+	}
+	d.logf("after the later round's votes: skipped=%v stayed=%v again=%v %s", skipped, stayed, again, d.state())
+	// bit 6 (set in 3 of 4 cases): D now learns the decision of round cr and leaves the height, so
+	// that A cannot be rescued by a later round deciding B with A's help: the majority claim of the
+	// nodes that hold the +2/3 precommits (the reactor's VoteSetMaj23) lets D accept Z's precommit for
+	// B although Z told D nil before
+	if variant&64 == 0 || d.r.Bool() {
+		d.o.Stat("dir.S7.D-leaves-after-the-skip")
+		for pos, n := range d.net.nodes {
+			if d.is(n.idx, "D") && d.active(n) {
+				d.net.maj23Gossip(pos)
+			}
+		}
+		d.showK("precommit", cr, "D", "CDZ", keyB)
+		d.reached("D-committed-and-left", d.committedAll("D"))
+	}
+}
+
+// vfSignedTwice: did a correct validator request two vote signatures for the same (height, round,
+// type) at height h? Returns a description ("" = no). The recording PrivValidator logs every
+// signature request of a node.
+func vfSignedTwice(net *vfNet, h uint64) string {
+	out := ""
+	for _, nd := range net.nodes {
+		seen := map[string]string{}
+		for _, sr := range nd.pv.log {
+			if sr.proposal || sr.h != h {
+				continue
+			}
+			k := fmt.Sprintf("%d/%d", sr.r, sr.typ)
+			v := sr.blockKey
+			if v == "" {
+				v = "nil"
+			} else if len(v) > 8 {
+				v = v[:8]
+			}
+			if prev, ok := seen[k]; ok {
+				out += fmt.Sprintf(" [node%d signed two votes of type %d for height %d round %d: %s then %s]", nd.idx, sr.typ, h, sr.r, prev, v)
+			}
+			seen[k] = v
+		}
+	}
+	return out
+}
+
 // ---- the driver
 
 var vfDirKinds = []string{"S1", "S2", "S3", "S4", "S5"}
@@ -1520,6 +1763,19 @@ func vfDirSpecFor(kind string, variant int) vfDirSpec {
 		}
 		return vfDirSpec{crit: []string{r1, "CDZ", "CDZ"}, maxGap: []int{2, 1, 1}, differ: [][2]int{{0, 1}}, powerOK: pw}
 	}
+	if kind == "S7" {
+		// D and Z together are a quorum of their own (they alone give A +2/3 of anything in the
+		// later round), D alone is not (it must not decide on its own precommits), Z below one third;
+		// bit 5 of the variant: without group C
+		pw := func(d *vfDir) bool {
+			return len(d.group("A")) > 0 && len(d.group("D")) > 0 && 3*d.power("Z") < d.tot && 3*d.power("DZ") > 2*d.tot && 3*d.power("D") <= 2*d.tot
+		}
+		roles := "ACDZ"
+		if variant&32 != 0 {
+			roles = "ADZ"
+		}
+		return vfDirSpec{crit: []string{"CDZ"}, maxGap: []int{2}, powerOK: pw, roles: roles}
+	}
 	return vfDirSpec{crit: []string{"ACDZ"}, maxGap: []int{2}}
 }
 
@@ -1545,6 +1801,14 @@ func vfRunDirected(o *vfOut, r *vfRand, kind string, tag string) (net *vfNet, de
 		healed, rounds = d.healRounds(d.h, 45)
 		o.Stat(fmt.Sprintf("dir.S6.heal-rounds<=%d", (rounds/10+1)*10))
 		desc += fmt.Sprintf(" heal-rounds=%d decided=%v", rounds, healed)
+	} else if d.kind == "S7" {
+		healed = d.heal(d.h, 40*n+60)
+		if d.committedAll("A") {
+			o.Stat("dir.S7.A-committed")
+		} else {
+			o.Stat("dir.S7.A-NOT-committed")
+		}
+		desc += fmt.Sprintf(" decided=%v", healed)
 	} else {
 		healed = d.heal(d.h+uint64(r.Pick(0, 0, 1)), 40*n+60)
 	}
@@ -1562,7 +1826,7 @@ func vfDirPlay(o *vfOut, r *vfRand, kind string, tag string) (d *vfDir, desc str
 		return nil, "", err
 	}
 	net.dropPct, net.dupPct = 0, 0
-	d = &vfDir{net: net, o: o, r: r, kind: kind, tag: tag, dbg: vfEnvInt("VERIF_DEBUG", 0) > 0}
+	d = &vfDir{net: net, o: o, r: r, kind: kind, tag: tag, dbg: vfEnvInt("VERIF_DEBUG", 0) > 0, dbg2: vfEnvInt("VERIF_DEBUG", 0) > 1}
 	for _, p := range net.powers {
 		d.tot += p
 	}
@@ -1594,13 +1858,20 @@ func vfDirPlay(o *vfOut, r *vfRand, kind string, tag string) (d *vfDir, desc str
 	if kind == "S6" {
 		variant = r.Intn(2)
 	}
+	if kind == "S7" {
+		variant = r.Intn(128)
+	}
 	planned := vfDirFeasible(net.powers) && d.plan(vfDirSpecFor(kind, variant))
+	if !planned && kind == "S7" {
+		variant ^= 32 // with / without group C
+		planned = vfDirFeasible(net.powers) && d.plan(vfDirSpecFor(kind, variant))
+	}
 	if planned && kind == "S2" && variant == 3 && 3*d.power("CD") > 2*d.tot {
 		// C and D alone would show A a nil polka: use the block variant
 		variant = 2
 		planned = d.plan(vfDirSpecFor(kind, variant))
 	}
-	if !planned && kind != "S4" && kind != "S6" {
+	if !planned && kind != "S4" && kind != "S6" && kind != "S7" {
 		o.Stat("dir." + kind + ".plan-failed")
 		kind = "S4"
 		d.kind = kind
@@ -1644,6 +1915,8 @@ func vfDirPlay(o *vfOut, r *vfRand, kind string, tag string) (d *vfDir, desc str
 			vfDirS3(d, variant)
 		case "S6":
 			vfDirS6(d, variant)
+		case "S7":
+			vfDirS7(d, variant)
 		default:
 			vfDirS4(d)
 		}
